@@ -164,6 +164,14 @@ def run():
             seen.add(k)
             long_hists.append(h)
     chk.extra["histories_simulated_by_tlc"] = len(long_hists)
+    # histories over a 5-operation core alphabet, exhaustively to depth 4 (list sub-edits, query, refine a sub-edit,
+    # refine the parent: the orders in which caches and lazily expanded iterators can go stale)
+    core = ["edits", "bounds", "tighten", "sub.tighten", "sub.edits"]
+    cfg = tlc.cfg_text(spec="GenSpec", constants={"Ops": set(core), "MaxOps": 4, "Results": {"r"}}, invariants=["Emit"])
+    res = tlc.run_tlc("EditApiGen", cfg, workers=1, timeout=600, name="EditApiGen-core")
+    chk.add_tlc(res, "EditApiGen", "enumeration of all histories over the 5-operation core alphabet up to length 4")
+    core_hists = [h for h in res.printed if isinstance(h, list) and len(h) >= 3]
+    chk.extra["core_histories_enumerated_by_tlc"] = len(core_hists)
     # 2. replay on the real code
     cases = pick_cases(n_cases, 5)
     r = rng("c05-assign")
@@ -177,6 +185,8 @@ def run():
         # every history both quiet and not quiet for a few of them
         for h in full[: 30]:
             hs.append((h, True, False))
+        for h in (core_hists if ci % 3 == 0 or t != "quick" else r.sample(core_hists, 120)):
+            hs.append((h, bool(r.getrandbits(1)), True))
         jobs.append((case, 5, hs))
     ctx = mp.get_context("fork")
     with ctx.Pool(min(16, os.cpu_count() or 4), initializer=_init, maxtasksperchild=4) as pool:
